@@ -614,7 +614,7 @@ pub fn hash_seed_for(root: u64, i: u64) -> u64 {
 pub fn do_check(args: &Args) -> i32 {
     let t0 = Instant::now();
     let thorough = args.tier == "thorough";
-    let n_prog = args.runs.unwrap_or(if thorough { 6_000 } else { 400 });
+    let n_prog = args.runs.unwrap_or(if thorough { 2_000 } else { 300 });
     let n_seeds = args.hash_seeds.unwrap_or(if thorough { 32 } else { 4 }).max(2);
     let reps: u64 = 1;
     println!(
